@@ -58,14 +58,14 @@ def annotate_half(R, func, loop, axis, other_loops):
         raise Unrecognised(f'{slot}: append-or-create branch', func=func, node=loop)
     br = ifs[0]
     t, neg = strip_not(br.test)
-    tc = chain(t)
+    tc = chain(env.expand(t, alias_only=True))
     has, new = (br.orelse, br.body) if neg else (br.body, br.orelse)
     R.check(tc == [cvar, axis], 'LABELLING', func, br, f'{slot}: guard tests the label that is written', f'if {cvar}.{axis}:', f'if {src(br.test)}:')
     apps = [s.value for s in has if isinstance(s, ast.Expr) and isinstance(s.value, ast.Call)]
     ok = False
     if len(apps) == 1 and len(has) == 1:
         a = apps[0]
-        ac = chain(a.func)
+        ac = chain(env.expand(a.func, alias_only=True))
         if ac == [cvar, axis, 'append']:
             ok = len(a.args) == 1 and name_is(a.args[0], x)
         elif ac == [cvar, axis, 'extend']:
